@@ -571,7 +571,7 @@ func litestream.(*Replica).syncOnce(r, ctx, maxSyncLTXFiles) (result, err)
   ensures [C05.ack] err == nil && !result.limited ==> r.pos.TXID >= c05_dpos
   ensures [C05.synced-flag] result.synced ==> c05_uploaded
   ensures [C05.ack-not-ahead] err == nil && !result.limited ==> r.pos.TXID <= c05_dpos
-  loop 0 invariant r.db == old(r.db) && txID == r.pos.TXID + 1 && dpos.TXID == c05_dpos && (result.synced ==> c05_uploaded) && !result.limited
+  loop 0 invariant r.db == old(r.db) && txID == r.pos.TXID + 1 && r.pos.TXID <= c05_dpos && dpos.TXID == c05_dpos && (result.synced ==> c05_uploaded) && !result.limited
 
 // ---------------------------------------------------------------------------
 // C14: the only SQL litestream ever issues (closed-world sweep over every database/sql call site
